@@ -12,7 +12,7 @@ from framework import TranslateError  # noqa: F401
 PID = "C19"
 PROPS_FILE = "Props/C19.v"
 GEN_FILES = ["Gen/C19_len.v", "Gen/C03_len.v"]
-MODEL_FILES = ["Model/C19_select.v"]
+MODEL_FILES = ["Model/C19_select.v", "Model/C19_seed.v"]
 ALLOWED_AXIOMS = [        # Print Assumptions prints the short path, coqchk the full one
     r"(Coq\.Reals\.)?ClassicalDedekindReals\.sig_forall_dec",
     r"(Coq\.Reals\.)?ClassicalDedekindReals\.sig_not_dec",
@@ -27,7 +27,12 @@ TRUSTED = [
     "standard-library axioms ClassicalDedekindReals.sig_forall_dec, ClassicalDedekindReals.sig_not_dec, "
     "FunctionalExtensionality.functional_extensionality_dep, Classical_Prop.classic (allowed, listed in ALLOWED_AXIOMS)",
     "translators harness/translate/c19.py + c03.py: Python ast -> Gallina for the length resolution of RandomSelector / SoftmaxRanker / "
-    "StochasticTopNRanker, their eligibility masks, the key rule log(uniform)/max(weight, tiny) (matched textually) and argtopn's branch structure",
+    "StochasticTopNRanker, their eligibility masks, the key rule log(uniform)/max(weight, tiny) (matched textually), argtopn's branch structure, "
+    "every use each __call__ makes of its generator (one rng.choice(len(items), n, replace=False) / one rng.uniform(0, 1, N)), and the text of "
+    "lenskit/random.py's _bytes_seed, make_seed, DerivingRNG, FixedRNG.__call__ and derivable_rng (user-derived seeds)",
+    "seed derivation (not verified): numpy.random.SeedSequence gives independent streams for different (entropy, spawn key) pairs; MD5 is not "
+    "modelled -- theorem derived_streams states that str / bytes / UUID users get different streams exactly when the digest separates their bytes, "
+    "and the frequency exercise counts users of look-alike id families that were handed the same list",
     "generator contract (not verified): rng.choice(N, m, replace=False) returns m distinct positions below N; rng.uniform(0,1,N) returns N reals "
     "in [0,1) -- the theorems quantify over every such outcome; the distribution statements assume an ideal generator (all permutations equally "
     "likely, independent uniform draws); NumPy's PCG64 is not modelled",
@@ -46,7 +51,7 @@ RULE = ("structured generator: lists of 0-15 items with distinct ids, a second f
         "RandomSelector / SoftmaxRanker / StochasticTopNRanker (softmax, linear, raw) with scale in {-2,-1/2,0,2^-20,1/4,1/2,1,2,10,1000}, plus a fixed grid of "
         "every transform x every scale on each run; configured and run-time n in "
         "{None, -1, 1..20} (+ run-time 0); integer seeds and (seed, 'user') derived seeds with and without a query user; malformed stream: rankers on "
-        "a list without scores.  Distribution exercise (extra): 28 frequency tables, each a SEQUENCE of calls on one component -- uniform selection and "
+        "a list without scores.  Distribution exercise (extra): 76 frequency tables, each a SEQUENCE of calls on one component -- uniform selection and "
         "the rankers with fixed and (seed,'user')-derived seeds, anonymous queries, a few identified users, a new user on every call (identified users "
         "re-asked afterwards must get the same sample), every transform with negative / zero / tiny / unit / large scale.  non-trivial = at least 3 eligible items, a non-empty output shorter than the eligible count or a ranker output of "
         "length >= 2; distinct = by hash of the case")
@@ -88,6 +93,52 @@ def gen_score(rng, style):
                   "negbig": Fraction(-(2 ** 100))}[k])
 
 
+def gen_user(rng):
+    """the query of a single call: anonymous, an integer user, or a string / bytes / UUID user id (JSON-able spec, see mk_query)"""
+    k = rng.weighted([("none", 3), ("int", 4), ("str", 2), ("bytes", 1), ("uuid", 1)])
+    if k == "none":
+        return None
+    if k == "int":
+        return rng.choice([0, 3, 17, 42, 2 ** 40 + 1])
+    return user_id_spec({"type": k, "style": rng.choice(["dec", "pad", "hex"] if k != "uuid" else ["time", "text"]),
+                         "prefix": rng.choice(["user", "u-", "alice.", ""])}, rng.randint(0, 2500))
+
+
+def user_id_spec(fam, k):
+    """the k-th member of a family of look-alike user ids (common prefix + running number; UUIDs: successive
+    time stamps of one node, or the 16 characters of a padded text id)"""
+    t, style, prefix = fam["type"], fam["style"], fam.get("prefix", "user")
+    if t == "uuid":
+        if style == "time":
+            import uuid
+            return {"uuid": uuid.UUID(fields=((0x5F3A0000 + 10007 * k) & 0xFFFFFFFF, 0x1C2D, 0x11EE, 0x9A, 0x3B, 0x0242AC120002)).hex}
+        return {"uuid": (prefix + "0" * 16)[:4].encode("latin1").hex() + ("%012d" % k).encode("latin1").hex()}
+    text = {"dec": f"{prefix}{k}", "pad": f"{prefix}{k:06d}", "hex": f"{prefix}{k:x}"}[style]
+    return {t: text}
+
+
+def mk_query(u):
+    """query input of a call from its JSON-able spec"""
+    if u is None or isinstance(u, int):
+        return u
+    if "str" in u:
+        return u["str"]
+    if "bytes" in u:
+        return u["bytes"].encode("latin1")
+    import uuid
+    return L.RecQuery(user_id=uuid.UUID(hex=u["uuid"]))
+
+
+def user_label(u):
+    if u is None or isinstance(u, int):
+        return repr(u)
+    if "str" in u:
+        return repr(u["str"])
+    if "bytes" in u:
+        return "b" + repr(u["bytes"])
+    return "UUID(%s)" % u["uuid"]
+
+
 def gen_case(rng, malformed=False):
     comp = rng.weighted([("random", 3), ("softmax", 2), ("stochastic", 6)])
     ni = rng.weighted([(0, 1), (1, 1), (2, 1), (3, 2), (5, 3), (8, 3), (12, 2), (15, 1)])
@@ -100,7 +151,7 @@ def gen_case(rng, malformed=False):
     c = {
         "comp": comp, "cfg_n": gen_n(rng), "run_n": gen_n(rng) if not rng.chance(1, 25) else 0,
         "rng": {"seed": rng.below(2 ** 31), "user": rng.chance(1, 3)},
-        "user": rng.choice([None, 3, 17, 42]),
+        "user": gen_user(rng),
         "transform": rng.choice(["softmax", "linear", None]) if comp == "stochastic" else None,
         "scale": fjson(rng.choice(SCALES + [Fraction(1), Fraction(1)])) if comp == "stochastic" else "1/1",
         "items": items, "scores": True, "style": style,
@@ -194,6 +245,8 @@ def srepr(x):
 def make_component(case, record=True):
     _setup()
     spec = case["rng"]["seed"] if not case["rng"]["user"] else (case["rng"]["seed"], "user")
+    if case["rng"]["user"] and case["rng"]["seed"] is None:
+        spec = "user"                       # derived from fresh entropy (frequency exercise only)
     if case["comp"] == "random":
         comp = L.RandomSelector(n=case["cfg_n"], rng=spec)
     elif case["comp"] == "softmax":
@@ -257,7 +310,7 @@ def run_impl(case):
     il = make_items(case)
     obs = {"error": None}
     try:
-        out = comp(items=il, query=case["user"], n=case["run_n"])
+        out = comp(items=il, query=mk_query(case["user"]), n=case["run_n"])
     except ValueError as e:
         obs["error"] = "EValue:" + str(e)[:60]
         return obs
@@ -465,6 +518,7 @@ def counters(case, obs):
     yield "comp=" + case["comp"] + ("" if case["comp"] != "stochastic" else "/" + str(case["transform"]))
     yield "style=" + case["style"]
     yield "seed=" + ("user-derived" if case["rng"]["user"] else "fixed") + ("+user" if case["user"] is not None else "")
+    yield "user-id=" + ("none" if case["user"] is None else "int" if isinstance(case["user"], int) else next(iter(case["user"])))
     yield "cfg_n=" + ("None" if case["cfg_n"] is None else "-1" if case["cfg_n"] < 0 else "pos")
     yield "run_n=" + ("None" if case["run_n"] is None else "-1" if case["run_n"] < 0 else "0" if case["run_n"] == 0 else "pos")
     yield "items=" + ("0" if not case["items"] else "1-3" if len(case["items"]) <= 3 else "4+")
@@ -489,7 +543,13 @@ def sample(case, obs):
             "observation": {k: obs.get(k) for k in ("error", "out", "ordered")}}
 
 
+_shrunk = set()
+
+
 def shrink(case, fails):
+    if case.get("freq") or len(_shrunk) >= 5:        # at most 5 inputs are minimised per run
+        return case
+    _shrunk.add(common.digest(case))
     c = dict(case)
     c["items"] = common.shrink_list(case["items"], lambda xs: fails({**c, "items": xs}), 60)
     return c
@@ -501,68 +561,134 @@ def shrink(case, fails):
 
 
 def _seq_user(f, k):
-    """the query of the k-th call of a sequence: None (anonymous) or a user id"""
+    """the query of the k-th call of a sequence (JSON-able spec, see mk_query): anonymous, an integer, or the k-th member
+    of a family of look-alike string / bytes / UUID user ids"""
     u = f.get("users", {"kind": "anonymous"})
     if u["kind"] == "anonymous":
         return None
     if u["kind"] == "distinct":
         return 1000 + k                       # a new identified user on every call
+    if u["kind"] == "family":
+        return user_id_spec(u, k)             # a new user on every call: 'user0', 'user1', ... / b'user0' ... / UUIDs
     return u["ids"][k % len(u["ids"])]        # "cycle"
 
 
+def _users_label(u):
+    if u["kind"] != "family":
+        return u["kind"]
+    return f"family of {u['type']} ids {user_label(user_id_spec(u, 0))}, {user_label(user_id_spec(u, 1))}, ..."
+
+
 def _freq_counts(case):
-    """run_impl of a frequency case: a sequence of calls on ONE component; first-position and inclusion counts,
-    and for user-derived seeds whether an identified user gets the same sample again."""
+    """run_impl of a frequency case: a sequence of calls on ONE component; how often every item is at every output
+    position (first, included = anywhere), for user-derived seeds whether an identified user gets the same sample again,
+    and -- where every call has a different user and the space of possible lists is huge -- how many users were handed
+    a list that an earlier, different user already got."""
     f = case["freq"]
     comp, _ = make_component(case, record=False)
     il = make_items(case)
     ids = [r[0] for r in case["items"]]
-    first = {i: 0 for i in ids}
-    incl = {i: 0 for i in ids}
+    pos = {i: [0] * len(ids) for i in ids}
     memo = {}
     changed = []
+    lists, repeats, shared = {}, 0, []
     for k in range(f["draws"]):
         u = _seq_user(f, k)
-        o = comp(items=il, query=u, n=case["run_n"]).ids().tolist()
-        if o:
-            first[o[0]] += 1
-        for i in o:
-            incl[i] += 1
+        o = comp(items=il, query=mk_query(u), n=case["run_n"]).ids().tolist()
+        for p, i in enumerate(o):
+            pos[i][p] += 1
         if u is not None and len(memo) < 200:
-            memo.setdefault(u, o)
+            memo.setdefault(user_label(u), (u, o))
+        if f.get("expect_distinct"):
+            t = tuple(o)
+            if t in lists:
+                repeats += 1
+                if len(shared) < 3:
+                    shared.append([lists[t], user_label(u), o])
+            else:
+                lists[t] = user_label(u)
     if case["rng"]["user"]:
-        for u, o in list(memo.items())[:100]:     # the same identified users once more, after everything else
-            o2 = comp(items=il, query=u, n=case["run_n"]).ids().tolist()
+        for lab, (u, o) in list(memo.items())[:100]:     # the same identified users once more, after everything else
+            o2 = comp(items=il, query=mk_query(u), n=case["run_n"]).ids().tolist()
             if o2 != o:
-                changed.append([u, o, o2])
-    return {"error": None, "first": [[i, first[i]] for i in ids], "included": [[i, incl[i]] for i in ids],
-            "rechecked_users": min(len(memo), 100) if case["rng"]["user"] else 0, "changed": changed[:3]}
+                changed.append([lab, o, o2])
+    return {"error": None, "first": [[i, pos[i][0]] for i in ids], "included": [[i, sum(pos[i])] for i in ids],
+            "positions": [[i, pos[i]] for i in ids],
+            "rechecked_users": min(len(memo), 100) if case["rng"]["user"] else 0, "changed": changed[:3],
+            "users_sharing_a_list": repeats if f.get("expect_distinct") else None, "shared": shared}
+
+
+def _tail(n, p, got):
+    """probability of a count at least this far from n*p on the observed side (exact binomial)"""
+    from scipy.stats import binom
+    p = min(1.0, max(0.0, p))
+    return float(binom.sf(got - 1, n, p) if got >= n * p else binom.cdf(got, n, p))
 
 
 def _freq_rows(case, obs):
     f = case["freq"]
+    n = f["draws"]
     rows = []
+
+    def row(i, what, got, p):
+        sd = math.sqrt(n * p * (1 - p)) if 0 < p < 1 else 0.0
+        z = abs(got - n * p) / sd if sd > 0 else (0.0 if got == round(n * p) else 1e9)
+        r = {"item": i, "what": what, "count": got, "expected": round(n * p, 1), "z": round(z, 2)}
+        if z > 6:
+            r["tail"] = _tail(n, p, got)      # decides (the normal band is too narrow for very small expected counts)
+        rows.append(r)
     for what, exp in (("first", f["expect_first"]), ("included", f["expect_included"])):
         if exp is None:
             continue
         for (i, got), p in zip(obs[what], exp):
-            sd = math.sqrt(f["draws"] * p * (1 - p))
-            z = abs(got - f["draws"] * p) / sd if sd > 0 else (0.0 if got == round(f["draws"] * p) else 1e9)
-            rows.append({"item": i, "what": what, "count": got, "expected": round(f["draws"] * p, 1), "z": round(z, 2)})
+            row(i, what, got, p)
+    if f.get("expect_positions"):
+        for (i, got), ps in zip(obs["positions"], f["expect_positions"]):
+            for k in range(1, len(ps)):
+                row(i, f"at position {k + 1}", got[k], ps[k])
     return rows
+
+
+TAIL = 1e-9          # two-sided 6 sigma of a normal is 2e-9
+MAX_SHARED = 2       # users (out of thousands) allowed to repeat another user's list of 16 items by chance
 
 
 def _freq_oracle(case, obs):
     f = case["freq"]
-    who = (f"{case['comp']} transform={case['transform']} scale={case['scale']} seed={'(%d, user)' % case['rng']['seed'] if case['rng']['user'] else case['rng']['seed']} "
-           f"calls={f['draws']} x {f.get('users', {'kind': 'anonymous'})['kind']} queries on one component")
+    users = f.get("users", {"kind": "anonymous"})
+    seed = "'user'" if case["rng"]["seed"] is None else ("(%d, user)" % case["rng"]["seed"] if case["rng"]["user"] else case["rng"]["seed"])
+    who = (f"{case['comp']} transform={case['transform']} scale={case['scale']} n: configured {case['cfg_n']}, run-time {case['run_n']}, "
+           f"{len(case['items'])} items; seed={seed} calls={f['draws']} x {_users_label(users)} queries on one component")
     v = [(f"frequency:{f['name']}", f"{f['name']}: item {r['item']} {r['what']} {r['count']} times in {f['draws']} successive calls, expected {r['expected']} "
-                                    f"(z = {r['z']} > 6) [{who}]")
-         for r in _freq_rows(case, obs) if r["z"] > 6][:1]
+                                    f"(z = {r['z']} > 6, binomial tail {r['tail']:.1e}) [{who}]")
+         for r in _freq_rows(case, obs) if r["z"] > 6 and r["tail"] < TAIL][:1]
     if obs.get("changed"):
         u, o, o2 = obs["changed"][0]
         v.append((f"sequence:{f['name']}:user-not-reproducible", f"user-derived seed: user {u} got {o} and later {o2} from the same component [{who}]"))
+    if (obs.get("users_sharing_a_list") or 0) > MAX_SHARED:
+        a, b, o = obs["shared"][0]
+        v.append((f"sequence:{f['name']}:users-share-a-sample",
+                  f"user-derived seed: {obs['users_sharing_a_list']} of {f['draws']} different users were handed exactly the list an earlier user got, "
+                  f"e.g. users {a} and {b} both got {o}; independent draws repeat a list of {len(o)} items about never (more than {MAX_SHARED} is a violation) [{who}]"))
     return v
+
+
+def position_odds(rates, m):
+    """P(item i is at output position p), p < m, when the first m of successive draws without replacement are taken
+    with odds proportional to the rates (the order in which independent exponential clocks with these rates ring;
+    equal rates = a uniformly random arrangement).  Exact, by enumeration (small lists only)."""
+    from itertools import permutations
+    rates = [Fraction(r) for r in rates]
+    tot = sum(rates)
+    out = [[Fraction(0)] * m for _ in rates]
+    for perm in permutations(range(len(rates)), m):
+        rest, pr = tot, Fraction(1)
+        for i in perm:
+            pr *= rates[i] / rest
+            rest -= rates[i]
+        for p, i in enumerate(perm):
+            out[i][p] += pr
+    return [[float(x) for x in r] for r in out]
 
 
 _freq_done = False
@@ -575,19 +701,32 @@ def search(rng, rep):
     return len(rep.violations) > before
 
 
-def extra(rep, tier, rng):
-    global _freq_done
-    if _freq_done:
-        return
-    _freq_done = True
-    _setup()
+def freq_cases(tier, rng):
     draws = 20000 if tier == "quick" else 200000
     grid_draws = 3000 if tier == "quick" else 30000
-    tables = []
+    n_users = 2000 if tier == "quick" else 10000
     seed = lambda: rng.below(2 ** 31)  # noqa: E731
     base = {"cfg_n": None, "user": None, "scores": True, "style": "freq", "scale": "1/1", "transform": None}
     cases = []
     anonymous, distinct, cycle = {"kind": "anonymous"}, {"kind": "distinct"}, {"kind": "cycle", "ids": [3, 17, 42]}
+    families = [{"kind": "family", "type": "str", "style": "dec", "prefix": "user"},
+                {"kind": "family", "type": "bytes", "style": "dec", "prefix": "user"},
+                {"kind": "family", "type": "uuid", "style": "text", "prefix": "user"},
+                {"kind": "family", "type": "str", "style": "pad", "prefix": "u-"},
+                {"kind": "family", "type": "uuid", "style": "time"},
+                {"kind": "family", "type": "str", "style": "hex", "prefix": rng.choice(["alice", "bob", "reader", "acct"]) + rng.choice([".", "_", ""])},
+                {"kind": "family", "type": "bytes", "style": "pad", "prefix": rng.choice(["k", "id:", "cust-"])}]
+
+    def fam_name(u):
+        return f"{u['type']} ids like {user_label(user_id_spec(u, 120))}"
+
+    def ways(m, N):
+        """the ways a resolved length m can be asked for: (label, configured n, run-time n)"""
+        other = 2 if m != 2 else 3
+        w = [("n configured", m, None), ("n at run time", None, m), ("run-time n over a configured one", other, m)]
+        if m == N:
+            w += [("configured -1", -1, None), ("run-time n beyond the list", None, N + 3)]
+        return w
 
     # uniform selection: 2 of 6, every item equally likely (inclusion n/k, first 1/k); fixed and user-derived seeds,
     # anonymous and identified queries, always as a sequence of calls on one component
@@ -597,16 +736,40 @@ def extra(rep, tier, rng):
                                  ("uniform 2 of 6 / user-derived seed / anonymous", True, anonymous),
                                  ("uniform 2 of 6 / user-derived seed / new user each call", True, distinct)):
         cases.append({**base, "comp": "random", "run_n": 2, "items": items, "rng": {"seed": seed(), "user": derived},
-                      "freq": {"name": name, "draws": draws, "users": users, "expect_first": [1 / 6] * 6, "expect_included": [2 / 6] * 6}})
+                      "freq": {"name": name, "draws": draws, "users": users, "expect_first": [1 / 6] * 6, "expect_included": [2 / 6] * 6,
+                               "expect_positions": position_odds([1] * 6, 2)}})
+
+    # uniform selection at the ends of the range: resolved length 1, N-1 and N (every item at every position)
+    k = 0
+    for N in (2, 3, 5, 8):
+        items_n = [[20 + i, fjson(Fraction(i, 4)), i % 3] for i in range(N)]
+        for m in sorted({1, N - 1, N}):
+            for rep_ in range(2):
+                k += 1
+                w = ways(m, N)
+                how, cfg, run = w[k % len(w)]
+                derived = k % 2 == 0
+                users = anonymous if not derived else (anonymous, distinct, families[0], families[1])[(k // 2) % 4]
+                cases.append({**base, "comp": "random", "cfg_n": cfg, "run_n": run, "items": items_n, "rng": {"seed": seed(), "user": derived},
+                              "freq": {"name": f"uniform {m} of {N} / {how}", "draws": 2 * grid_draws, "users": users,
+                                       "expect_first": [1 / N] * N, "expect_included": [m / N] * N,
+                                       "expect_positions": position_odds([1] * N, m) if N <= 5 else None}})
 
     scores = [Fraction(1, 2), Fraction(1), Fraction(2), Fraction(4)]
     items = [[10 + k, fjson(s), 0] for k, s in enumerate(scores)]
 
-    def ranker_case(name, comp, tr, scale, derived, users, n_draws):
-        c = {**base, "comp": comp, "transform": tr, "scale": scale, "run_n": 2, "items": items, "rng": {"seed": seed(), "user": derived}}
-        w, tiny = harness_weights(c, [float(x) for x in scores])
+    def ranker_case(name, comp, tr, scale, derived, users, n_draws, cfg_n=None, run_n=2, its=items):
+        c = {**base, "comp": comp, "transform": tr, "scale": scale, "cfg_n": cfg_n, "run_n": run_n, "items": its,
+             "rng": {"seed": seed(), "user": derived}}
+        w, tiny = harness_weights(c, [float(fparse(r[1])) for r in its])
         r = [max(x, tiny) for x in w]
-        c["freq"] = {"name": name, "draws": n_draws, "users": users, "expect_first": [x / sum(r) for x in r], "expect_included": None}
+        m = len(its) if (run_n if run_n is not None else cfg_n) in (None, -1) else min(run_n if run_n is not None else cfg_n, len(its))
+        c["freq"] = {"name": name, "draws": n_draws, "users": users}
+        if len(its) <= 5:
+            odds = position_odds(r, m)
+            c["freq"].update(expect_first=[o[0] for o in odds], expect_included=[min(1.0, sum(o)) for o in odds], expect_positions=odds)
+        else:
+            c["freq"].update(expect_first=[x / sum(r) for x in r], expect_included=[1.0] * len(its) if m == len(its) else None)
         return c
 
     cases.append(ranker_case("SoftmaxRanker / fixed seed / anonymous", "softmax", None, "1/1", False, anonymous, draws))
@@ -619,13 +782,63 @@ def extra(rep, tier, rng):
             k += 1
             cases.append(ranker_case(f"{tr or 'raw'} scale {fjson(sc)}", "stochastic", tr, fjson(sc), k % 2 == 0, anonymous,
                                      draws if sc == 1 else grid_draws))
-    for c in cases:
+    # the rankers at the ends of the range: resolved length 1, N-1 and N
+    k = 0
+    for label, comp, tr in (("SoftmaxRanker", "softmax", None), ("raw", "stochastic", None), ("linear", "stochastic", "linear"),
+                            ("softmax", "stochastic", "softmax")):
+        for m in (1, 3, 4):
+            k += 1
+            w = ways(m, 4)
+            how, cfg, run = w[k % len(w)]
+            derived = k % 2 == 1
+            users = anonymous if not derived else (distinct, anonymous, families[0])[(k // 2) % 3]
+            cases.append(ranker_case(f"{label} {m} of 4 / {how}", comp, tr, "1/1", derived, users, grid_draws, cfg_n=cfg, run_n=run))
+
+    # user-derived seeds, a different user on every call, user ids that look alike (strings / bytes / UUIDs with a common
+    # prefix and a running number): whole lists of 16 items -- across users the lists must differ (independent streams)
+    # and the pooled first positions must follow the configured odds
+    items16 = [[101 + i, fjson(1 + Fraction(i, 16)), i % 4] for i in range(16)]
+    for u in families:
+        cases.append({**base, "comp": "random", "cfg_n": -1, "run_n": None, "items": items16, "rng": {"seed": seed(), "user": True},
+                      "freq": {"name": f"uniform 16 of 16 / user-derived seed / {fam_name(u)}", "draws": n_users, "users": u, "expect_distinct": True,
+                               "expect_first": [1 / 16] * 16, "expect_included": [1.0] * 16}})
+    cases.append({**base, "comp": "random", "cfg_n": -1, "run_n": None, "items": items16, "rng": {"seed": None, "user": True},
+                  "freq": {"name": f"uniform 16 of 16 / seed spec 'user' (fresh entropy: counts vary between runs) / {fam_name(families[0])}",
+                           "draws": n_users, "users": families[0], "expect_distinct": True, "expect_first": [1 / 16] * 16, "expect_included": [1.0] * 16}})
+    k = 0
+    for label, comp, tr, sc in (("raw", "stochastic", None, "1/1"), ("softmax scale 1/2", "stochastic", "softmax", "1/2"), ("SoftmaxRanker", "softmax", None, "1/1")):
+        for rep_ in range(2):
+            u = families[k % len(families)]
+            k += 1
+            c = ranker_case(f"{label} 16 of 16 / user-derived seed / {fam_name(u)}", comp, tr, sc, True, u, n_users, cfg_n=-1, run_n=None, its=items16)
+            c["freq"]["expect_distinct"] = True
+            cases.append(c)
+    return cases
+
+
+def extra(rep, tier, rng):
+    global _freq_done
+    if _freq_done:
+        return
+    _freq_done = True
+    _setup()
+    tables = []
+    n_reported = 0
+    for c in freq_cases(tier, rng):
         obs = run_impl(c)
         rows = _freq_rows(c, obs)
-        tables.append({"table": c["freq"]["name"], "draws": c["freq"]["draws"], "seed": c["rng"], "calls": c["freq"]["users"]["kind"],
-                       "rechecked_users": obs["rechecked_users"], "max_z": max(r["z"] for r in rows), "rows": rows})
+        tables.append({"table": c["freq"]["name"], "draws": c["freq"]["draws"], "seed": c["rng"], "calls": _users_label(c["freq"]["users"]),
+                       "n": {"configured": c["cfg_n"], "run_time": c["run_n"]},
+                       "rechecked_users": obs["rechecked_users"], "users_sharing_a_list": obs["users_sharing_a_list"],
+                       "max_z": max(r["z"] for r in rows), "rows_checked": len(rows),
+                       # the evidence keeps the first-position / inclusion rows of the small tables and every row beyond 4 sigma
+                       "rows": [r for r in rows if r["z"] > 4 or (len(c["items"]) <= 8 and r["what"] in ("first", "included"))]})
         for key, what in oracle(c, obs):
-            rep.violation(key, what, {"case": c, "observation": obs})
+            n_reported += 1
+            if n_reported <= 8:                  # the first few name the input; the tables in the evidence carry the rest
+                rep.violation(key, what, {"case": c, "observation": obs})
     rep.coverage["frequency_tables"] = tables
-    rep.coverage["tolerances"] = {"weights": "2^-40 relative (float64 harness re-implementation vs rational model)", "frequencies": "6 sigma binomial band",
+    rep.coverage["tolerances"] = {"weights": "2^-40 relative (float64 harness re-implementation vs rational model)",
+                                  "frequencies": "6 sigma binomial band and exact binomial tail below 1e-9",
+                                  "users sharing a list": f"at most {MAX_SHARED} of the users of a table may repeat an earlier user's list of 16 items",
                                   "keys": "an excluded key must not exceed an included one by more than 1e-9 relative"}
